@@ -734,6 +734,58 @@ def r10_13(ctx, counts) -> RuleResult:
     return res
 
 
+def r10_14(ctx, counts) -> RuleResult:
+    """binary values are compared in their value space (octets), not by their lexical text"""
+    model: Model = ctx.model
+    res = RuleResult(
+        'R10.14', 'BINARY-COMPARES-OCTETS',
+        'The value space of xs:hexBinary and xs:base64Binary is octet sequences; `.value` holds '
+        'the lexical text (hex digits in either case, base64 characters whose alphabet order is '
+        'not the order of the octets). The comparison methods of the binary classes (__eq__, '
+        '__ne__, __lt__, __le__, __gt__, __ge__) and the methods of the same classes they call on '
+        'self therefore never read `.value`: they compare `decode()` results. Ordering '
+        'xs:base64Binary("AA==") after "0w==" and xs:hexBinary("ab") after "AB" follows the text.')
+    base = model.find_class('AbstractBinary')
+    if base is None:
+        raise AnalysisError('AbstractBinary vanished')
+    classes = [base] + model.subclasses_of(base)
+    cmp_names = ('__eq__', '__ne__', '__lt__', '__le__', '__gt__', '__ge__')
+    n = 0
+    for cls in classes:
+        todo = [cls.methods[m] for m in cmp_names if m in cls.methods]
+        seen = set()
+        while todo:
+            fn = todo.pop()
+            if fn in seen:
+                continue
+            seen.add(fn)
+            n += 1
+            reads = [x for x in ast.walk(fn.node) if isinstance(x, ast.Attribute)
+                     and x.attr == 'value' and isinstance(x.ctx, ast.Load)
+                     and isinstance(x.value, ast.Name) and x.value.id in fn.params()]
+            res.instances.append(f'{fn.key}: reads of the lexical text (.value): {len(reads)}')
+            if not reads:
+                res.ok()
+            else:
+                res.fail(finding('R10.14', fn, reads[0], f'{fn.name} compares .value',
+                                 f'{fn.name} (reached from a comparison method of {cls.name}) reads '
+                                 f'`{stmt_text(reads[0])}`, the lexical text: binary values compare '
+                                 f'as octet sequences (decode()), the order of base64 characters '
+                                 f'and the case of hex digits are not the order of the octets'))
+            for c in ast.walk(fn.node):
+                if isinstance(c, ast.Call) and isinstance(c.func, ast.Attribute) \
+                        and isinstance(c.func.value, ast.Name) and c.func.value.id == 'self' \
+                        and c.func.attr not in ('decode', 'encoder', 'validate'):
+                    for k in cls.mro():
+                        if c.func.attr in k.methods:
+                            todo.append(k.methods[c.func.attr])
+                            break
+    counts['binary_comparison_methods'] = n
+    if n < 5:
+        raise AnalysisError(f'binary comparison methods located: {n} < 5')
+    return res
+
+
 def run(ctx) -> dict:
     spec = json.load(open(SPEC))
     counts: dict[str, int] = {}
@@ -762,6 +814,7 @@ def run(ctx) -> dict:
     # equal values must keep equal hashes after adjust-*-to-timezone
     results.append(r11_8(ctx, counts))
     results.append(r10_13(ctx, counts))
+    results.append(r10_14(ctx, counts))
     # process-wide state is written only by the reviewed inventory (no new caches)
     from .c19_global import r19_5 as _r19_5
     _state = _r19_5(ctx, counts, lambda f: f.module.name.startswith(('elementpath.datatypes', 'elementpath.helpers', 'elementpath.xpath2._xpath2_operators', 'elementpath.xpath2._xpath2_constructors')), 1)
